@@ -18,6 +18,8 @@ def iterq(tier, seed, params):
                     muts = ["next", "next_back", "clone;next;next_back;as_slice", "fold!", "rfold!", "count!", "last!"]
                     muts += ["nth:%d" % k for k in range(0, ln + 3)]
                     muts += ["nth_back:%d" % k for k in range(0, ln + 3)]
+                    # arguments near the machine-word boundary (index arithmetic must not wrap)
+                    muts += ["%s:%d" % (o, k) for o in ("nth", "nth_back") for k in (2 ** 64 - 1, 2 ** 64 - 2, 2 ** 63, 2 ** 64 - 1 - ln)]
                     muts += ["write:%d:%d" % (i, 500 + i) for i in range(0, ln + 2)]
                     for m in muts:
                         out.append("n=%d ops=%s" % (n, ";".join(p + [passive, m, passive])))
@@ -31,7 +33,7 @@ def iterq(tier, seed, params):
         for _ in range(rng.randint(1, 64)):
             o = rng.choice(names)
             if o in ("nth", "nth_back"):
-                k = rng.choice([0, 1, 2, 3, rng.randint(0, n + 2), n // 2])
+                k = rng.choice([0, 1, 2, 3, rng.randint(0, n + 2), n // 2, 2 ** 64 - 1, 2 ** 64 - rng.randint(1, n + 2)])
                 o = "%s:%d" % (o, k)
             elif o == "write":
                 o = "write:%d:%d" % (rng.randint(0, max(1, n // 2)), rng.randint(100, 999))
@@ -135,6 +137,16 @@ def own_c05(tier, seed, params):
                     out.append("op=iter_last n=%d front=%d back=%d fault=%s" % (n, f, b, bad))
                     out.append("op=iter_count n=%d front=%d back=%d fault=%s" % (n, f, b, bad))
                     out.append("op=iter_drop n=%d front=%d back=%d fault=%s" % (n, f, b, bad))
+    # an element whose destructor panics while caller code owns it (the closure of map / zip / fold lets go of its
+    # argument) is, for the library, a closure that panics at that call: every owned-receiver form, every call index
+    for n in range(1, 6):
+        for k in range(n):
+            for fm in "ob":
+                out.append("op=map form=%s n=%d fault=call:%d" % (fm, n, k))
+                out.append("op=fold form=%s n=%d fault=call:%d" % (fm, n, k))
+            for fa, fb in ZIP_FORMS:
+                if "o" in (fa, fb) or "b" in (fa, fb):
+                    out.append("op=zip form=%s form2=%s n=%d fault=call:%d" % (fa, fb, n, k))
     for n in (16, 17, 33):
         for (f, b) in ((0, n), (3, n - 2), (n // 2, n // 2 + 1)):
             for bad in ("none", "dtor:%d" % (f + 1), "dtor:%d" % b, "dtor:%d" % ((f + b) // 2 + 1)):
@@ -697,4 +709,13 @@ def types(tier, seed, params):
     for api in LIFE_APIS:
         for prog in ("ok", "escape", "moved", "alias"):
             out.append("op=life api=%s prog=%s uniq=%d" % (api, prog, 1 if corpora_uniq(api) else 0))
+    return out
+
+
+def filldefault(tier, seed, params):
+    out = []
+    for kind in FILL_KINDS:
+        ns = FILL_NS if (kind in ("u8", "slot") or tier == "thorough") else [0, 1, 2, 3, 4, 5, 7, 8, 15, 16, 17, 31, 32, 33, 63, 64, 127, 128, 129, 1023, 1024]
+        for n in ns:
+            out.append("op=const_item kind=%s n=%d" % (kind, n))
     return out
